@@ -129,6 +129,9 @@ func (e *Env) counted(rec useRec, c templ.Component) templ.Component {
 	return templ.ComponentFunc(func(ctx context.Context, w io.Writer) error {
 		if !e.Static {
 			e.Uses = append(e.Uses, rec)
+			if e.Cancelled && kernel.Active != nil {
+				kernel.Active.Count("probe_use_rendered_after_request_context_was_cancelled", 1)
+			}
 		}
 		return c.Render(ctx, w)
 	})
@@ -232,7 +235,7 @@ func genItem(t *kernel.Tape, depth int) Item {
 
 // genUseLeaf draws one use of a script, css class or once handle.
 func genUseLeaf(t *kernel.Tape, ext map[*Node]*nodeExt, nOnce int) *Node {
-	uses := []string{"rawscript", "rawscript", "text", "usescript", "onclick", "ontwo", "oncond", "onhx", "classof", "classtwo", "classcond", "oncemark", "oncewith", "lit", "text"}
+	uses := []string{"rawscript", "rawscript", "rawscript", "text", "text", "usescript", "onclick", "ontwo", "oncond", "onhx", "classof", "classtwo", "classcond", "oncemark", "oncewith", "lit", "text"}
 	k := uses[t.Choose(len(uses), "usekind")]
 	n := &Node{K: k, N: t.Choose(16, "n"), B: t.Bool("b")}
 	x := &nodeExt{M: t.Choose(16, "m")}
@@ -515,6 +518,7 @@ func checkC12(rc *kernel.RunCtx, k *kernel.Kernel, who string, doc string, uses 
 }
 
 type c12ctx struct {
+	stream   bool // middleware mode: the page handler streams instead of buffering
 	cancelAt int // middleware mode: cancel the request context when this fault point is reached (-1: never)
 	name   string
 	specs  []*Node
@@ -579,6 +583,7 @@ func c12World(rc *kernel.RunCtx) {
 	var ctxs []*c12ctx
 	for i := 0; i < nctx; i++ {
 		c := &c12ctx{name: fmt.Sprintf("ctx#%d", i), nonce: t.Chance(1, 3, "nonce"), viaMW: middleware, cancelAt: -1}
+		c.stream = middleware && t.Bool("streaming-handler")
 		if middleware && t.Chance(2, 5, "client-leaves-mid-render") {
 			c.cancelAt = t.Choose(3, "cancel-at")
 		}
@@ -612,7 +617,11 @@ func c12World(rc *kernel.RunCtx) {
 			if c.viaMW {
 				comp := c.env.buildTracked(c.specs[0])
 				rec := newRecorder()
-				pageMW := templ.NewCSSMiddleware(templ.Handler(comp), regClasses...)
+				var hopts []func(*templ.ComponentHandler)
+				if c.stream {
+					hopts = append(hopts, templ.WithStreaming())
+				}
+				pageMW := templ.NewCSSMiddleware(templ.Handler(comp, hopts...), regClasses...)
 				pageMW.CSSHandler = mw.CSSHandler // the handler state (registered classes) is the shared one
 				rctx, cancel := context.WithCancel(context.Background())
 				defer cancel()
@@ -671,7 +680,7 @@ func c12World(rc *kernel.RunCtx) {
 			rc.Fail("C12/render-error", "%s: %v", who, c.err)
 			continue
 		}
-		if c.viaMW && c.cancelAt >= 0 && c.status != http.StatusOK {
+		if c.viaMW && c.cancelAt >= 0 && (c.status != http.StatusOK || c.stream) {
 			// the client went away mid-render: the request failed, which is all that is required of it
 			k.Count("fault_request_context_cancelled_mid_render", 1)
 			continue
